@@ -17,12 +17,7 @@ Theorem C17_reporters_agree :
       run_suite rk1 verdict_suite m cap n = Finished v p1 /\
       run_suite rk2 verdict_suite m cap n = Finished v p2 /\
       tot p1 = tot p2 /\ c p1 = c p2 /\ out p1 = out p2.
-Proof.
-  intros rk1 rk2 m cap n H1 H2 Hcap Hs Hok.
-  destruct (run_suite_spec rk1 verdict_suite m cap n (builtin_rk_folds rk1 H1) Hcap Hs Hok) as (f1 & R1).
-  destruct (run_suite_spec rk2 verdict_suite m cap n (builtin_rk_folds rk2 H2) Hcap Hs Hok) as (f2 & R2).
-  do 3 eexists. split; [exact R1|]. split; [exact R2|]. cbn. auto.
-Qed.
+Proof. exact reporters_agree. Qed.
 Print Assumptions C17_reporters_agree.
 
 Theorem C17_example_premises_hold : ok_tree Forked 4096 ex_tree /\ is_suite ex_tree /\ unique_names ex_tree.
